@@ -651,6 +651,17 @@ def rule_hamming(repo: Repo, rep: Report) -> int:
 
 
 def run(repo: Repo, rep: Report, tier: str) -> None:
+    if tier == "thorough":
+        ci_ = repo.cls(HAM, "HammingCodeEncoder")
+        sp_ = repo.method(ci_, "_syndrome_to_error_position")
+        st_, d_ = hamming_position_evaluated(sp_)
+        if st_ is not None:
+            rep.add("HAMMING", sp_, "_syndrome_to_error_position tabulated over all columns and four layouts (thorough tier)", st_, d_, node=sp_.node)
+        ci_ = repo.cls(SL, "SyndromeLookupDecoder")
+        tb_ = repo.method(ci_, "_build_syndrome_table")
+        st_, d_ = syndrome_table_evaluated(ci_, tb_)
+        if st_ is not None:
+            rep.add("COSET-LEADER", tb_, "_build_syndrome_table evaluated on three small codes (thorough tier)", st_, d_, node=tb_.node)
     n = rule_special_cases(repo, rep)
     n += rule_syndrome_table(repo, rep)
     n += rule_ml(repo, rep)
